@@ -61,8 +61,12 @@ class FakeAioMqtt:
             raise MqttError("injected connect failure")
         return self
 
+    exit_fault = False
+
     async def __aexit__(self, *exc):
         self.exited = True
+        if FakeAioMqtt.exit_fault:
+            raise MqttError("injected: the broker connection was already gone")
         return None
 
     async def publish(self, topic, payload=None, qos=0, retain=False, **kw):
@@ -286,7 +290,15 @@ class MqttRun:
                 ev["res"] = f"other:{len(pubs)} publishes"
             self.events.append(ev)
         elif op == "disconnect":
-            self.events.append({"op": "disconnect", "res": self.call(self.tr.disconnect())})
+            if len(cmd) > 1 and cmd[1] == "broker-gone" and self.kind == "client":
+                FakeAioMqtt.exit_fault = True       # leaving the broker client's context fails: absorbed by the transport
+                try:
+                    res = self.call(self.tr.disconnect())
+                finally:
+                    FakeAioMqtt.exit_fault = False
+            else:
+                res = self.call(self.tr.disconnect())
+            self.events.append({"op": "disconnect", "res": res})
         self.settle()
 
     def finish(self) -> dict:
@@ -354,7 +366,7 @@ def random_jobs(rnd: random.Random, n: int) -> list:
             elif r < 0.75:
                 cmds.append(["read"])
             elif r < 0.9:
-                pay = rnd.choice(["", "1", "a;b", "é", "x/y", "55.7;12.5;30"])
+                pay = rnd.choice(["", "1", "a;b", "é", "x/y", "55.7;12.5;30", " lead", "a; b ;c", "\tt", "  "[0:1] + "x y"])
                 cmds.append(["write", f"{n_};{c_};{cmd_};{a_};{t_};{pay}\n", rnd.random() < 0.85])
             elif r < 0.95:
                 cmds.append(["broker_error"])
@@ -370,6 +382,11 @@ def random_jobs(rnd: random.Random, n: int) -> list:
             if k % 40 == 14:
                 cmds = [["connect", "ok"], ["broker_msg", t1, list(b"zero")], ["read"], ["read"], ["cancel_read"], ["read"], ["cancel_read"],
                         ["broker_msg", t1, list(b"one")], ["read"], ["broker_error"], ["read"]]
+        if k % 40 == 24:
+            # the disconnect meets a broker that is already gone (absorbed); the same object connects again and works
+            t1 = f"{inp}/1/1/1/0/2"
+            cmds = [["connect", "ok"], ["broker_msg", t1, list(b"1")], ["read"], ["disconnect", "broker-gone"], ["connect", "ok"],
+                    ["broker_msg", t1, list(b"2")], ["read"], ["write", "1;1;1;0;2; lead\n", True]]
         if k % 40 in (9, 19, 29):
             # the same transport object is disconnected and connected again: what was received and not yet read is
             # still delivered, in order, exactly once; a read that was already waiting gets the next message
